@@ -256,6 +256,15 @@ def c12_r4(ctx):
     ctx.need(len(fs) == 1, "the function building SourceIndex::Pair")
     f = fs[0]
     ctx.saw(f)
+    # (when the indices are gathered in several passes - reported below - there is no "loop over
+    #  the sources" for the binding clauses to be read against: they are not reported on top)
+    _pushes = [p for p in f.calls_to(VEC_PUSH) if "SourceIndex" in f.local_ty(p.args[1]["place"]["local"])["s"]]
+    _inner = set()
+    for pu in _pushes:
+        lps = [lp for lp in f.loops() if pu.bb in lp["body"]]
+        if lps:
+            _inner.add(min(lps, key=lambda l: len(l["body"]))["header"])
+    multi_pass = len(_inner) > 1
     for (bb, idx, rv, pl) in f.constructs("sort::SourceIndex", "Pair"):
         ctx.inst("Pair", f.where(bb, idx))
         n_o = f.origins_of_operand(rv["ops"][0])
@@ -298,6 +307,8 @@ def c12_r4(ctx):
             raise AnalysisError("idiom not recognised: %s binds sources in a closure called from elsewhere" % f.id)
         if ok:
             ctx.ok()
+        elif multi_pass:
+            pass
         else:
             ctx.viol((f.id, "pair-binding"), "SourceIndex::Pair is not (final index of the rule owning this source, index of this source among that rule's targets) - a dependent would wait for / hash the wrong producer target", f.where(bb, idx))
     for (bb, idx, rv, pl) in f.constructs("sort::SourceIndex", "Leaf"):
@@ -313,6 +324,8 @@ def c12_r4(ctx):
                     ok = True
         if ok:
             ctx.ok()
+        elif multi_pass:
+            pass
         else:
             ctx.viol((f.id, "leaf-binding"), "SourceIndex::Leaf is not the leaf-map entry of this very source", f.where(bb, idx))
     # every source gets an index: in the inner loop every iteration pushes exactly one SourceIndex
